@@ -6,13 +6,15 @@
                      calls the iterator type implements occur (forward-only types: Next / Nth / Len;
                      types without an exact size: no Len).
      model side: the models that exist (AccessIter / IntoIter over IntVector, bit_vector::Iter,
-                 bit_vector::OneIter<Identity|Complement> from every entry point) replayed on the same
-                 calls. For the iterator types without a model (sparse, run-length, wavelet matrix)
-                 the model side is vacuous. *)
+                 bit_vector::OneIter<Identity|Complement> from every entry point, and the four iterators
+                 of the run-length vector - Model/RL.v + Model/RLIters.v - on the vector rebuilt by the
+                 model's builder with the harness's calls) replayed on the same calls. For the iterator
+                 types without a model (sparse, wavelet matrix) the model side is vacuous. *)
 From Coq Require Import NArith List Bool.
 Require Import SDS.Model.Mach SDS.Model.Bits SDS.Model.Raw SDS.Model.IntVec SDS.Model.BitVec SDS.Model.Iters.
 Require Export SDS.Spec.Deque SDS.Spec.IterRefs.
 Require Import SDS.Spec.BitSeq SDS.Check.Common.
+Require SDS.Model.RL SDS.Model.RLIters.   (* qualified: Model/RL.v reuses record names of Model/BitVec.v *)
 Import ListNotations.
 Open Scope N_scope.
 
@@ -126,7 +128,32 @@ Definition model_ok (sp : selpath) (m : mode) (s : src) (e : entry) (runs : list
           | _ => false
           end
       end
-  | _ => true   (* no model of the sparse / run-length / wavelet-matrix iterators yet *)
+  | SRL len rl_runs =>
+      (* RLBuilder::new(); try_set(s, l).unwrap() per run; set_len(len); RLVector::from *)
+      match RL.rl_build m (map (fun r => RL.BTrySet (fst r) (snd r)) rl_runs ++ [RL.BSetLen len]) with
+      | Ok (v, oks) =>
+          forallb (fun x => x) oks &&
+          match e with
+          | ERuns =>
+              match RL.rl_run_iter v with
+              | Ok it => forallb (run_agrees (RLIters.rl_ri_step m v) (fun x => x) it) runs
+              | _ => false
+              end
+          | EIter =>
+              match RL.rl_iter v with
+              | Ok it => forallb (run_agrees (RLIters.rl_bi_step m v) enc_bool it) runs
+              | _ => false
+              end
+          | _ =>
+              match RLIters.rl_oi_entry m v e, RLIters.rl_zi_entry m v e with
+              | Some (Ok it), _ => forallb (run_agrees (RLIters.rl_oi_step m v) (fun x => x) it) runs
+              | None, Some (Ok it) => forallb (run_agrees (RLIters.rl_zi_step m v) (fun x => x) it) runs
+              | _, _ => false
+              end
+          end
+      | _ => false
+      end
+  | _ => true   (* no model of the sparse / wavelet-matrix iterators yet *)
   end.
 
 Definition runs_of_case (c : case) : list (list call * list obs) :=
